@@ -149,7 +149,8 @@ def coq_make(targets, timeout=2400):
             return rc, out
     dirs = sorted(set(t.split("/")[0] for t in targets))
     with Lock("coqmake-" + "-".join(dirs)):
-        return sh(["make", "-C", COQ, "-j8", "-k"] + targets, timeout=timeout)
+        # every single coqc is bounded as well (a runaway tactic must not eat the whole budget)
+        return sh(["make", "-C", COQ, "-j8", "-k", "COQC=timeout 1500 coqc"] + targets, timeout=timeout)
 
 
 def parse_make_errors(out):
